@@ -690,4 +690,289 @@ Section Chain.
              ++ apply run1d_fresh; [exact Hlfl | exact Hst].
              ++ intros a2 b2. apply simM_pure. intros ->. cbn beta. apply simM_ret. intros; reflexivity.
   Qed.
+
+  Lemma run1_member_base l a b : member_link l -> valof a = valof b ->
+    forall m s, run1 l a m s = run1 l b m s.
+  Proof. intros Hm Hv m s. destruct l; try contradiction; cbn [run1]; rewrite Hv; reflexivity. Qed.
+
+  Lemma run1_member_baseof l r : member_link l ->
+    forall m s, match run1 l r m s with (_, _, _, Ok o) => baseof o = valof r | _ => True end.
+  Proof.
+    intros Hm m s. destruct l; try contradiction; cbn [run1]; unfold bind, lift, ret.
+    - destruct (w_get w (valof r) (VStr name) s) as [[? ?] [?|?]]; [reflexivity | exact I].
+    - destruct (ev k m s) as [[[t1 m1] s1] [kr | x]]; [| exact I].
+      destruct (w_get w (valof r) (valof kr) s1) as [[? ?] [?|?]]; [reflexivity | exact I].
+  Qed.
+
+  Lemma member_not_delete l : member_link l -> l <> LDelete.
+  Proof. destruct l; intro H; try contradiction; discriminate. Qed.
+
+  (* ---- this passing: an optional call whose callee is an optional chain ---- *)
+  Lemma apply_links_store pre l : member_link l -> forall again inner n,
+    apply_links (pre ++ [l]) again None inner true n
+    = (let '(f, a, n1) := capture (fold_links pre again) n in (link_expr l f, Some a, n1)).
+  Proof.
+    intro Hm. induction pre as [| x xs IH]; intros again inner n.
+    - cbn [app apply_links fold_links fold_left andb]. destruct (capture again n) as [[f a] n1].
+      destruct l; try contradiction; reflexivity.
+    - cbn [app fold_links fold_left]. fold (fold_links xs (link_expr x again)).
+      rewrite <- (IH (link_expr x again) false n).
+      destruct xs as [| y ys]; cbn [app apply_links andb]; destruct x, inner; reflexivity.
+  Qed.
+
+  Lemma capture_again_inline t n f a n1 : capture t n = (f, a, n1) -> is_inline_value a = true.
+  Proof.
+    unfold capture. destruct (is_inline_value t) eqn:Hi; intro H; injection H as <- <- <-; [exact Hi | reflexivity].
+  Qed.
+
+  Definition L3 (n : Z) : tpred := fun k => n <= k < n + 3.
+
+  (* what visiting the callee start?.lm produces when the parent is an optional call *)
+  Lemma producer_single F P hcp n start lm first again n3 :
+    frag P -> flatten P = Some (start, [lm], false) -> member_link lm -> ends_with_access P = true ->
+    f_optchain F = true -> start <> ENull -> start <> EUndef ->
+    capture start n = (first, again, n3) ->
+    lowerOptionalChain F P (mkIn hcp true) out0 n
+    = (EIf (EEqNull false first) EUndef (link_expr lm again), mkOut (Some again) false, n3).
+  Proof.
+    intros Hfr Hfl Hm Ha HF Hn1 Hn2 Hc.
+    unfold lowerOptionalChain. rewrite Hfl, (frag_not_delete P Hfr), (start_match start _ _ Hn1 Hn2), HF.
+    cbn [negb]. rewrite Hc. cbn [storeThis]. rewrite Ha. cbn [andb].
+    pose proof (apply_links_store [] lm Hm again true n3) as Hal. cbn [app] in Hal. rewrite Hal. cbn [fold_links fold_left].
+    unfold capture. rewrite (capture_again_inline start n first again n3 Hc). reflexivity.
+  Qed.
+
+  (* (start?.lm)?.(args) link ... , i.e.  a?.b?.(x).c : the this value of the call is the
+     object the member was read from, passed from the inner chain to the outer one *)
+  Theorem chain_call_over_member F eo eo' i n start lm args rest first again n3 :
+    member_link lm ->
+    capture start n = (first, again, n3) ->
+    forall P, frag P -> flatten P = Some (start, [lm], false) ->
+    frag eo -> flatten eo = Some (P, LCall args :: rest, true) ->
+    frag eo' ->
+    flatten eo' = Some (EIf (EEqNull false first) EUndef (link_expr lm again), LCall args :: rest, true) ->
+    no_delete rest -> f_optchain F = true -> storeThis i = false ->
+    cap_ok S w start -> call_intact S w ->
+    (forall k, L3 n k -> ~ In k (tmps start)) ->
+    (forall k, L3 n k -> ~ In k (link_tmps lm)) ->
+    links_fresh (L3 n) (LCall args :: rest) ->
+    forall m s, observe (ev (fst (fst (lowerOptionalChain F eo' i (mkOut (Some again) false) n3))) m s)
+              = observe (ev eo m s).
+  Proof.
+    intros Hm Hc P HfP HflP Hfo Hflo Hfo' Hflo' Hnd HF Hst Hok Hci Hds Hdl Hlf.
+    destruct (native_chain eo Hfo _ _ _ Hflo) as [_ Hnat].
+    destruct (native_chain P HfP _ _ _ HflP) as [_ HnatP].
+    unfold lowerOptionalChain. rewrite Hflo', (frag_not_delete eo' Hfo'), HF.
+    cbn [negb thisArg]. unfold capture at 1. cbn [is_inline_value].
+    rewrite Hst. cbn [andb]. rewrite apply_links_this. cbn [fst].
+    pose proof (capture_next start n first again n3 Hc) as Hn3.
+    set (L := L3 n).
+    assert (Ln : L n) by (unfold L, L3; lia).
+    assert (Ln3 : L n3) by (unfold L, L3; destruct (is_inline_value start); lia).
+    apply (simM_observe S L (fun _ a b => valof a = valof b)); [intros ? ? ? H; exact H |].
+    eapply simM_ext;
+      [ intros; reflexivity
+      | intros m0 s0; rewrite Hnat; apply (bind_cong_l _ _ _ m0 s0 HnatP) |].
+    assert (Hla : forall k, L k -> ~ In k (flat_map tmps args)).
+    { intros k Hk. apply (Hlf (LCall args) (or_introl eq_refl) k Hk). }
+    assert (Hlr : links_fresh L rest) by (intros l Hl; apply Hlf; right; exact Hl).
+    cbn [eval].
+    repeat apply simM_assoc_l. repeat apply simM_assoc_r. eapply simM_bind.
+    - apply (piece_first S w th L (fun _ => True) start n first again n3 Hc Hok Ln Hds (stable_true L)). auto.
+    - intros x y. apply simM_pure. intro E.
+      apply simM_ret_l. cbn [valof ov]. rewrite E.
+      assert (Hst1 : stable L (fun m0 : tstore => remp S w th start n (valof y) m0 /\ True)).
+      { apply stable_and; [apply remp_stable; exact Ln | apply stable_true]. }
+      destruct (nullish (valof y)) eqn:Hnull; cbn [xorb truthy].
+      + (* the inner chain short-circuits: so does the outer one *)
+        repeat (first [apply simM_assoc_l | apply simM_ret_l]). cbn [valof ov].
+        eapply (simM_left_write S L _ (fun _ => True)); [exact Ln3 | auto |].
+        repeat (first [apply simM_assoc_l | apply simM_ret_l]). cbn [valof ov nullish truthy].
+        repeat (first [apply simM_assoc_l | apply simM_ret_l]).
+        apply simM_ret_r. cbn [valof nullish]. apply simM_ret. intros; reflexivity.
+      + (* the member is read from the start value; it becomes the callee *)
+        repeat (first [apply simM_assoc_l | apply simM_ret_l]).
+        cbn [run]. repeat apply simM_assoc_r.
+        eapply simM_ext;
+          [ intros m0 s0; apply (bind_cong_l _ _ _ m0 s0 (fun m1 s1 => ev_link_expr lm again m1 s1 (member_not_delete lm Hm)))
+          | intros m0 s0; apply (bind_cong_l _ _ _ m0 s0 (run1_member_base lm y (ov (valof y)) Hm eq_refl)) |].
+        apply simM_assoc_l. eapply simM_left_pure.
+        { intros m0 s0 [Hr _]. apply (piece_again S w th start n first again n3 _ m0 s0 Hc Hr). }
+        cbn beta. eapply simM_bind.
+        { apply simM_post_right with (Q := fun o => baseof o = valof y);
+            [apply (run1_fresh L _ lm (ov (valof y)) Hdl Hst1) | apply (run1_member_baseof lm (ov (valof y)) Hm)]. }
+        intros r r0. cbn beta.
+        eapply simM_conseq with (Pre := fun m0 => (r = r0 /\ baseof r0 = valof y) /\ remp S w th start n (valof y) m0)
+                                (Post := fun _ a b => valof a = valof b);
+          [intros m0 [[-> [Hr _]] Hb]; auto | intros; assumption |].
+        apply simM_pure. intros [-> Hbase].
+        repeat (first [apply simM_assoc_l | apply simM_ret_l]). apply simM_ret_r. cbn [valof ov].
+        eapply (simM_left_write S L _ (fun m0 => tget m0 n3 = valof r0 /\ remp S w th start n (valof y) m0)); [exact Ln3 | |].
+        { intros m0 Hr. split; [apply tget_tset_same |]. apply remp_tset'; [| exact Hr]. intro Hi. rewrite Hi in Hn3. lia. }
+        repeat (first [apply simM_assoc_l | apply simM_ret_l]). cbn [valof ov].
+        assert (Hstb : stable L (fun m0 : tstore => tget m0 n3 = valof r0 /\ remp S w th start n (valof y) m0)).
+        { apply stable_and; [apply stable_tget; exact Ln3 | apply remp_stable; exact Ln]. }
+        destruct (nullish (valof r0)) eqn:Hnf; cbn [truthy].
+        * repeat (first [apply simM_assoc_l | apply simM_ret_l]). apply simM_ret. intros; reflexivity.
+        * eapply simM_ext;
+            [ intros m0 s0; apply (bind_cong_l _ _ _ m0 s0 (ev_fold rest Hnd (ECallThis (ETmp n3) again args)))
+            | intros; reflexivity |].
+          cbn [eval run1]. fold (evl args).
+          repeat apply simM_assoc_l.
+          eapply simM_left_pure; [intros m0 s0 [Hr _]; cbn; rewrite Hr; reflexivity |].
+          cbn [valof ov]. repeat apply simM_assoc_l.
+          eapply simM_left_skip.
+          { intros m0 s0 _. unfold lift. destruct (Hci (valof r0) s0 Hnf) as [c Ec]. rewrite Ec. eexists; reflexivity. }
+          intros _. repeat apply simM_assoc_l.
+          eapply simM_left_pure;
+            [intros m0 s0 [_ Hr]; apply (piece_again S w th start n first again n3 _ m0 s0 Hc Hr) |].
+          cbn [valof ov]. rewrite Hbase. repeat apply simM_assoc_l. repeat apply simM_assoc_r.
+          eapply simM_bind; [apply (simM_fresh_list S w th L _ args Hla Hstb) |].
+          intros vs vs0. apply simM_pure. intros ->.
+          repeat apply simM_assoc_l. repeat apply simM_assoc_r.
+          eapply simM_bind; [apply simM_lift |].
+          intros q q0. apply simM_pure. intros ->. apply simM_ret_l. apply simM_ret_r.
+          eapply simM_ext; [intros; reflexivity | intros m0 s0; symmetry; apply bind_ret_r |].
+          eapply simM_bind; [apply (run_fresh L _ rest Hlr Hstb) |].
+          intros o1 o2. apply simM_pure. intros ->. apply simM_ret. intros; reflexivity.
+  Qed.
+
+  Lemma fold_not_inline pre r : pre <> [] -> is_inline_value (fold_links pre r) = false.
+  Proof.
+    intro Hne. destruct (exists_last Hne) as (xs & x & ->). rewrite fold_links_app.
+    cbn [fold_links fold_left]. destruct x; reflexivity.
+  Qed.
+
+  Lemma producer_general F P hcp n start pre lm first again n3 :
+    frag P -> flatten P = Some (start, pre ++ [lm], false) -> member_link lm -> ends_with_access P = true ->
+    pre <> [] ->
+    f_optchain F = true -> start <> ENull -> start <> EUndef ->
+    capture start n = (first, again, n3) ->
+    lowerOptionalChain F P (mkIn hcp true) out0 n
+    = (EIf (EEqNull false first) EUndef (link_expr lm (EAssign (ETmp n3) (fold_links pre again))),
+       mkOut (Some (ETmp n3)) false, n3 + 1).
+  Proof.
+    intros Hfr Hfl Hm Ha Hne HF Hn1 Hn2 Hc.
+    unfold lowerOptionalChain. rewrite Hfl, (frag_not_delete P Hfr), (start_match start _ _ Hn1 Hn2), HF.
+    cbn [negb]. rewrite Hc. cbn [storeThis]. rewrite Ha. cbn [andb].
+    rewrite (apply_links_store pre lm Hm again true n3).
+    unfold capture. rewrite (fold_not_inline pre again Hne). reflexivity.
+  Qed.
+
+  (* (start?.l1...lk.lm)?.(args) link ... , e.g.  a?.b.c?.(x) : this = the value of a?.b *)
+  Theorem chain_call_over_chain F eo eo' i n start pre lm args rest first again n3 :
+    member_link lm -> pre <> [] -> no_delete pre ->
+    capture start n = (first, again, n3) ->
+    forall P, frag P -> flatten P = Some (start, pre ++ [lm], false) ->
+    frag eo -> flatten eo = Some (P, LCall args :: rest, true) ->
+    frag eo' ->
+    flatten eo' = Some (EIf (EEqNull false first) EUndef (link_expr lm (EAssign (ETmp n3) (fold_links pre again))),
+                        LCall args :: rest, true) ->
+    no_delete rest -> f_optchain F = true -> storeThis i = false ->
+    cap_ok S w start -> call_intact S w ->
+    (forall k, L3 n k -> ~ In k (tmps start)) ->
+    links_fresh (L3 n) (pre ++ [lm]) ->
+    links_fresh (L3 n) (LCall args :: rest) ->
+    forall m s, observe (ev (fst (fst (lowerOptionalChain F eo' i (mkOut (Some (ETmp n3)) false) (n3 + 1)))) m s)
+              = observe (ev eo m s).
+  Proof.
+    intros Hm Hne Hndp Hc P HfP HflP Hfo Hflo Hfo' Hflo' Hnd HF Hst Hok Hci Hds Hlfp Hlf.
+    destruct (native_chain eo Hfo _ _ _ Hflo) as [_ Hnat].
+    destruct (native_chain P HfP _ _ _ HflP) as [_ HnatP].
+    pose proof (flatten_head P HfP _ _ _ HflP) as Hhd. rewrite head_call_app in Hhd by exact Hne. symmetry in Hhd.
+    unfold lowerOptionalChain. rewrite Hflo', (frag_not_delete eo' Hfo'), HF.
+    cbn [negb thisArg]. unfold capture at 1. cbn [is_inline_value].
+    rewrite Hst. cbn [andb]. rewrite apply_links_this. cbn [fst].
+    pose proof (capture_next start n first again n3 Hc) as Hn3.
+    set (L := L3 n).
+    assert (Ln : L n) by (unfold L, L3; lia).
+    assert (Ln3 : L n3) by (unfold L, L3; destruct (is_inline_value start); lia).
+    assert (Ln4 : L (n3 + 1)) by (unfold L, L3; destruct (is_inline_value start); lia).
+    apply (simM_observe S L (fun _ a b => valof a = valof b)); [intros ? ? ? H; exact H |].
+    eapply simM_ext;
+      [ intros; reflexivity
+      | intros m0 s0; rewrite Hnat; apply (bind_cong_l _ _ _ m0 s0 HnatP) |].
+    assert (Hla : forall k, L k -> ~ In k (flat_map tmps args)).
+    { intros k Hk. apply (Hlf (LCall args) (or_introl eq_refl) k Hk). }
+    assert (Hlr : links_fresh L rest) by (intros l Hl; apply Hlf; right; exact Hl).
+    assert (Hlpre : links_fresh L pre) by (intros l Hl; apply Hlfp; apply in_app_iff; auto).
+    assert (Hdl : forall k, L k -> ~ In k (link_tmps lm)) by (apply Hlfp; apply in_app_iff; right; left; reflexivity).
+    cbn [eval].
+    repeat apply simM_assoc_l. repeat apply simM_assoc_r. eapply simM_bind.
+    - apply (piece_first S w th L (fun _ => True) start n first again n3 Hc Hok Ln Hds (stable_true L)). auto.
+    - intros x y. apply simM_pure. intro E.
+      apply simM_ret_l. cbn [valof ov]. rewrite E.
+      assert (Hst1 : stable L (fun m0 : tstore => remp S w th start n (valof y) m0 /\ True)).
+      { apply stable_and; [apply remp_stable; exact Ln | apply stable_true]. }
+      destruct (nullish (valof y)) eqn:Hnull; cbn [xorb truthy].
+      + repeat (first [apply simM_assoc_l | apply simM_ret_l]). cbn [valof ov].
+        eapply (simM_left_write S L _ (fun _ => True)); [exact Ln4 | auto |].
+        repeat (first [apply simM_assoc_l | apply simM_ret_l]). cbn [valof ov nullish truthy].
+        repeat (first [apply simM_assoc_l | apply simM_ret_l]).
+        apply simM_ret_r. cbn [valof nullish]. apply simM_ret. intros; reflexivity.
+      + repeat (first [apply simM_assoc_l | apply simM_ret_l]).
+        assert (Hlow : forall m0 s0,
+                  ev (link_expr lm (EAssign (ETmp n3) (fold_links pre again))) m0 s0
+                  = bind (bind (bind (ev again) (run pre))
+                               (fun r m1 s1 => ([], tset m1 n3 (valof r), s1, Ok (ov (valof r)))))
+                         (run1 lm) m0 s0).
+        { intros m0 s0. rewrite (ev_link_expr lm _ m0 s0 (member_not_delete lm Hm)).
+          apply bind_cong_l. intros m1 s1. cbn [eval]. apply bind_cong_l. intros m2 s2. apply (ev_fold pre Hndp again). }
+        assert (Hrn : forall m1 s1, run (pre ++ [lm]) y m1 s1 = bind (run pre (ov (valof y))) (run1 lm) m1 s1).
+        { intros m1 s1. rewrite run_app. apply bind_cong_l. intros m2 s2. apply (run_base pre y (ov (valof y)) Hne Hhd eq_refl). }
+        eapply simM_ext;
+          [ intros m0 s0; apply (bind_cong_l _ _ _ m0 s0 Hlow)
+          | intros m0 s0; apply (bind_cong_l _ _ _ m0 s0 Hrn) |].
+        repeat apply simM_assoc_l. repeat apply simM_assoc_r.
+        eapply simM_left_pure.
+        { intros m0 s0 [Hr _]. apply (piece_again S w th start n first again n3 _ m0 s0 Hc Hr). }
+        cbn beta. repeat apply simM_assoc_l. eapply simM_bind; [apply (run_fresh L _ pre Hlpre Hst1) |].
+        intros r1 r1'. apply simM_pure. intros ->.
+        repeat apply simM_assoc_l.
+        eapply (simM_left_write S L _ (fun m0 => tget m0 n3 = valof r1' /\ remp S w th start n (valof y) m0)); [exact Ln3 | |].
+        { intros m0 [Hr _]. split; [apply tget_tset_same |]. apply remp_tset'; [| exact Hr]. intro Hi. rewrite Hi in Hn3. lia. }
+        assert (Hstb : stable L (fun m0 : tstore => tget m0 n3 = valof r1' /\ remp S w th start n (valof y) m0)).
+        { apply stable_and; [apply stable_tget; exact Ln3 | apply remp_stable; exact Ln]. }
+        eapply simM_ext;
+          [ intros; reflexivity
+          | intros m0 s0; apply (bind_cong_l _ _ _ m0 s0 (run1_member_base lm r1' (ov (valof r1')) Hm eq_refl)) |].
+        eapply simM_bind.
+        { apply simM_post_right with (Q := fun o => baseof o = valof r1');
+            [apply (run1_fresh L _ lm (ov (valof r1')) Hdl Hstb) | apply (run1_member_baseof lm (ov (valof r1')) Hm)]. }
+        intros r r0. cbn beta.
+        eapply simM_conseq with (Pre := fun m0 => (r = r0 /\ baseof r0 = valof r1') /\
+                                         (tget m0 n3 = valof r1' /\ remp S w th start n (valof y) m0))
+                                (Post := fun _ a b => valof a = valof b);
+          [intros m0 [[-> Hr] Hb]; auto | intros; assumption |].
+        apply simM_pure. intros [-> Hbase].
+        repeat (first [apply simM_assoc_l | apply simM_ret_l]). cbn beta. cbn [valof ov].
+        eapply (simM_left_write S L _ (fun m0 => tget m0 (n3 + 1) = valof r0 /\ tget m0 n3 = valof r1'));
+          [exact Ln4 | |].
+        { intros m0 [Hr _]. split; [apply tget_tset_same |]. rewrite tget_tset_other by lia. exact Hr. }
+        repeat (first [apply simM_assoc_l | apply simM_ret_l]). cbn [valof ov].
+        assert (Hstc : stable L (fun m0 : tstore => tget m0 (n3 + 1) = valof r0 /\ tget m0 n3 = valof r1')).
+        { apply stable_and; apply stable_tget; assumption. }
+        destruct (nullish (valof r0)) eqn:Hnf; cbn [truthy].
+        * repeat (first [apply simM_assoc_l | apply simM_ret_l]). apply simM_ret. intros; reflexivity.
+        * eapply simM_ext;
+            [ intros m0 s0; apply (bind_cong_l _ _ _ m0 s0 (ev_fold rest Hnd (ECallThis (ETmp (n3 + 1)) (ETmp n3) args)))
+            | intros; reflexivity |].
+          cbn [eval run run1]. fold (evl args).
+          repeat apply simM_assoc_l.
+          eapply simM_left_pure; [intros m0 s0 [Hr _]; cbn; rewrite Hr; reflexivity |].
+          cbn [valof ov]. repeat apply simM_assoc_l.
+          eapply simM_left_skip.
+          { intros m0 s0 _. unfold lift. destruct (Hci (valof r0) s0 Hnf) as [c Ec]. rewrite Ec. eexists; reflexivity. }
+          intros _. repeat apply simM_assoc_l.
+          eapply simM_left_pure; [intros m0 s0 [_ Hr]; cbn; rewrite Hr; reflexivity |].
+          cbn [valof ov]. rewrite Hbase. repeat apply simM_assoc_l. repeat apply simM_assoc_r.
+          eapply simM_bind; [apply (simM_fresh_list S w th L _ args Hla Hstc) |].
+          intros vs vs0. apply simM_pure. intros ->.
+          repeat apply simM_assoc_l. repeat apply simM_assoc_r.
+          eapply simM_bind; [apply simM_lift |].
+          intros q q0. apply simM_pure. intros ->. apply simM_ret_l. apply simM_ret_r.
+          eapply simM_ext; [intros; reflexivity | intros m0 s0; symmetry; apply bind_ret_r |].
+          eapply simM_bind; [apply (run_fresh L _ rest Hlr Hstc) |].
+          intros o1 o2. apply simM_pure. intros ->. apply simM_ret. intros; reflexivity.
+  Qed.
 End Chain.
